@@ -18,6 +18,7 @@ import (
 
 	"github.com/preslavrachev/gomjml/mjml"
 	"github.com/preslavrachev/gomjml/mjml/fonts"
+	"github.com/preslavrachev/gomjml/mjml/styles"
 	"github.com/preslavrachev/gomjml/parser"
 )
 
@@ -509,6 +510,99 @@ func runC05(res *Result, tier string, seed int64, replay string) {
 				res.Violate(Violation{Sig: "nondeterministic|font-lookup", Kind: "input", What: fmt.Sprintf("GetGoogleFontURL(%q) returned %d different URLs in 300 calls", fam, len(seen)), Input: map[string]string{"family": fam}})
 			}
 			break
+		}
+	}
+	// ---- the small pure helpers through the packages' public API against the Lean Models (Core/SmallPure):
+	// ConvertFontFamiliesToURLs = lookup of each family, empty ones dropped, first occurrence kept; BuildFontsTags; NormalizeColor
+	nsp := 300
+	if tier == "thorough" {
+		nsp = 6000
+	}
+	pool := append([]string{}, fams...)
+	for i := 0; i < nsp; i++ {
+		r := NewRng(seed, fmt.Sprintf("c05/small/%d", i))
+		var list []string
+		for j, n := 0, r.Intn(9); j < n; j++ {
+			if j > 0 && r.Bool(1, 3) {
+				list = append(list, list[r.Intn(len(list))]) // the same family again
+			} else {
+				list = append(list, r.Pick(pool))
+			}
+		}
+		real := fonts.ConvertFontFamiliesToURLs(list)
+		req := "dedup"
+		for _, f := range list {
+			req += " " + hexOrDash(fonts.GetGoogleFontURL(f))
+		}
+		want := "."
+		if len(real) > 0 {
+			var hs []string
+			for _, u := range real {
+				hs = append(hs, hexOrDash(u))
+			}
+			want = strings.Join(hs, " ")
+		}
+		got, err := drv.Ask(req)
+		distinct := map[string]bool{}
+		for _, u := range real {
+			distinct[u] = true
+		}
+		res.Case("font-imports|"+req, len(real) >= 2 && len(list) > len(real))
+		res.mu.Lock()
+		res.Programs++
+		res.DisagreementsChecked++
+		res.mu.Unlock()
+		if err != nil || strings.TrimSpace(got) != want {
+			res.Disagree(Violation{Sig: "font-imports-model-mismatch", Kind: "input", What: fmt.Sprintf("ConvertFontFamiliesToURLs(%q) = %q, Model says %s", list, real, short(got, 200)), Input: map[string]string{"families": strings.Join(list, "|")}})
+			// the property itself: same list, same answer, every time; each address once
+			first := strings.Join(real, "\n")
+			for k := 0; k < 200; k++ {
+				if again := strings.Join(fonts.ConvertFontFamiliesToURLs(list), "\n"); again != first {
+					res.Violate(Violation{Sig: "nondeterministic|font-imports", Kind: "input", What: fmt.Sprintf("ConvertFontFamiliesToURLs(%q) answered differently on call %d", list, k), Input: map[string]string{"families": strings.Join(list, "|")}})
+					break
+				}
+			}
+		}
+		// the import block of an address list (arbitrary addresses: the real ones, with odd characters, repeated)
+		var urls []string
+		for j, n := 0, r.Intn(5); j < n; j++ {
+			urls = append(urls, r.Pick(append(append([]string{}, real...), "https://f.example/css?family=A+B:300,400", "u\"q", "a&b", "", "é", "x);@import url(y")))
+		}
+		reqT := "fonttags"
+		for _, u := range urls {
+			reqT += " " + hexOrDash(u)
+		}
+		gotT, errT := drv.Ask(reqT)
+		res.mu.Lock()
+		res.Programs++
+		res.DisagreementsChecked++
+		res.mu.Unlock()
+		if wantT := hexOrDash(fonts.BuildFontsTags(urls)); errT != nil || strings.TrimSpace(gotT) != wantT {
+			res.Disagree(Violation{Sig: "font-tags-model-mismatch", Kind: "input", What: fmt.Sprintf("BuildFontsTags(%q) and the Model differ", urls), Input: map[string]string{"urls": strings.Join(urls, "|")}})
+		}
+		// a colour value: three- and six-digit, both letter cases, near misses, bytes that are not ASCII
+		var cv string
+		switch r.Intn(6) {
+		case 0, 1:
+			cv = "#" + r.Pick([]string{"a", "F", "0", "9", "g", "G", "é"[:1], " "}) + r.Pick([]string{"b", "C", "1", "z", "\xff"}) + r.Pick([]string{"c", "D", "7", "-"})
+		case 2:
+			cv = "#" + r.Pick([]string{"aabbcc", "ABC", "abcd", "ab", "", "12345", "1234567"})
+		case 3:
+			cv = r.Pick([]string{"red", "abc", "#", "rgb(1,2,3)", " #abc", "#abc ", "##ab", "#ab#", "transparent", ""})
+		default:
+			b := make([]byte, r.Intn(6))
+			for j := range b {
+				b[j] = "#0aAfFgG9 \x80\xc3"[r.Intn(12)]
+			}
+			cv = string(b)
+		}
+		gotC, errC := drv.Ask("normcolor " + hexOrDash(cv))
+		res.mu.Lock()
+		res.Programs++
+		res.DisagreementsChecked++
+		res.mu.Unlock()
+		if wantC := hexOrDash(styles.NormalizeColor(cv)); errC != nil || strings.TrimSpace(gotC) != wantC {
+			res.Disagree(Violation{Sig: "normalize-color-model-mismatch", Kind: "input", What: fmt.Sprintf("NormalizeColor(%q) = %q, Model says %s", cv, styles.NormalizeColor(cv), gotC), Input: map[string]string{"value": cv}})
 		}
 	}
 }
